@@ -384,7 +384,10 @@ func flowWakeRules(r *Report) {
 			}
 			for _, in := range instrs(f) {
 				if d, isD := isBuiltinCall(in, "delete"); isD {
-					if anyIn(w.backSlice(d.Call.Args[0], flowOpt{}), func(v ssa.Value) bool { fa, y := v.(*ssa.FieldAddr); return y && fieldObj(fa).Name() == "outputBuffers" }) {
+					if anyIn(w.backSlice(d.Call.Args[0], flowOpt{}), func(v ssa.Value) bool {
+						fa, y := v.(*ssa.FieldAddr)
+						return y && fieldObj(fa).Name() == "outputBuffers"
+					}) {
 						ndel++
 						r.Fail("callgraph", "relay.outputBuffers entry deleted in "+fnName(f), "a stream's output buffer is discarded: DATA and the frames queued behind it (for example an RST_STREAM waiting for window) are never delivered", nil, d.Pos())
 					}
